@@ -124,6 +124,10 @@ func allOfMembers(cfg gen.Config) []member {
 		n2.Null = "after"
 		wrap("two inline nullable-object branches", &fam.Spec{Kind: "object", AllOf: []*fam.Spec{n1, n2}})
 	}
+	// two branches that each require a property of their own whose names differ only in CASE (url / URL): two names, both required
+	wrap("required names that differ only in case", &fam.Spec{Kind: "object", AllOf: []*fam.Spec{
+		obj(&fam.Prop{Label: "lo", Concrete: "url", Spec: str(), Required: true}),
+		obj(&fam.Prop{Label: "up", Concrete: "URL", Spec: str(), Required: true})}})
 	// three and four branches
 	for n := 3; n <= 4; n++ {
 		var bs []*fam.Spec
